@@ -640,3 +640,121 @@ Example c05_ex_extract : teval true t_extract (e3 (VI32 4294967040) (VU32 4) (VU
 Proof. vm_compute. reflexivity. Qed.
 Example c05_ex_table : (List.length Naga.Gen.GlslOpTable.table >= 400)%nat /\ List.length refuted_rows = 32%nat.
 Proof. split; vm_compute; [repeat constructor | reflexivity]. Qed.
+
+
+(* ==== statement level: the control-flow ENCODINGS (coq/Target/*.v) =========================================
+   Theorems for ALL bodies / continuing blocks / conditions / states / fuels about the fixed ways in which naga
+   encodes structured control flow, over the generic structured language of Target/Structured.v whose semantics IS
+   the IR reference interpreter (c05_ir_interpreter_is_generic: exact equality with IR/Sem.v) and whose rules are
+   those of the target interpreters (Target/GlslInstance.v).  Tied to /repo on every run by the recogniser
+   Target/Shapes.v (tool cfshape) over every emitted text: a loop or switch outside the proved shapes is reported. *)
+Require Import Naga.Target.Structured Naga.Target.LoopInit Naga.Target.LoopBound Naga.Target.ContinueForward
+        Naga.Target.SwitchForms Naga.Target.Desugar Naga.Target.IrInstance Naga.Target.GlslInstance Naga.Target.Examples.
+
+(* IR/Sem.v's interpreter is the generic interpreter on the translation IrInstance.tr: exact equality, all fuels *)
+Theorem c05_ir_interpreter_is_generic : forall (m : Naga.IR.Syntax.module) (f : Naga.IR.Syntax.func) (n : nat),
+  (forall b fr mem, conv (Naga.IR.Sem.exec_block n m f b fr mem) = run_block n (tr_b m f b) (fr, mem)) /\
+  (forall s fr mem, conv (Naga.IR.Sem.exec_stmt n m f s fr mem) = run_stmt n (tr m f s) (fr, mem)) /\
+  (forall cs fr mem, conv (Naga.IR.Sem.exec_cases n m f cs fr mem) = run_cases n (tr_c m f cs) (fr, mem)) /\
+  (forall body cont brk fr mem,
+     conv (Naga.IR.Sem.exec_loop n m f body cont brk fr mem) =
+     run_loop n (tr_b m f body) (tr_b m f cont)
+              (match brk with Some h => Some (bool_of m f "break if: not a bool" h) | None => None end) (fr, mem)).
+Proof. exact ir_is_generic. Qed.
+Print Assumptions c05_ir_interpreter_is_generic.
+
+(* and the translated statements satisfy the monotonicity hypothesis of every encoding theorem *)
+Theorem c05_ir_translation_monotone : forall m f b, mono_b (tr_b m f b).
+Proof. exact tr_b_mono. Qed.
+Print Assumptions c05_ir_translation_monotone.
+
+(* bool loop_init = true; while(true) { if (!loop_init) { continuing; if (break_if) break; } loop_init = false; body }
+   computes exactly what Loop{body; continuing; break_if} computes; the flag variable L is fresh (explicit
+   hypotheses) and ends up false; both directions *)
+Theorem c05_loop_init_encoding_equiv :
+  forall (state R : Type) (L : lens state bool) (body cont : list (Structured.stmt state R)) (bi : option (cond state)),
+  mono_b body -> mono_b cont -> indep_b L body -> indep_b L cont ->
+  (forall c : cond state, bi = Some c -> indep_fn L c) ->
+  may_brk_b cont = false -> may_cont_b cont = false ->
+  forall (st : state) (o : Structured.outcome R) (X : state),
+  evals_b (loop_init_enc L body cont bi) st (o, X) <->
+  (exists s' : state, X = lset L false s' /\ evals_s (Loop body cont bi) st (o, s')).
+Proof. exact loop_init_encoding_equiv. Qed.
+Print Assumptions c05_loop_init_encoding_equiv.
+
+Example c05_loop_init_nonvacuous :
+  mono_b ex_body /\ mono_b ex_cont /\ indep_b flagL ex_body /\ indep_b flagL ex_cont /\
+  (forall c, ex_bi = Some c -> indep_fn flagL c) /\ may_brk_b ex_cont = false /\ may_cont_b ex_cont = false /\
+  run_stmt 40 ex_loop ex_start = Done (Structured.ONormal, mkx 5 6 true (7, 7)%Z) /\
+  run_block 40 (loop_init_enc flagL ex_body ex_cont ex_bi) ex_start = Done (Structured.ONormal, mkx 5 6 false (7, 7)%Z).
+Proof.
+  exact (conj ex_mono_body (conj ex_mono_cont (conj ex_indep_flag_body (conj ex_indep_flag_cont (conj ex_indep_flag_bi
+        (conj eq_refl (conj eq_refl (conj ex_ir_run ex_loop_init_run)))))))).
+Qed.
+
+(* continue forwarding through should_continue (switch inside a loop): forward direction - whenever the IR switch
+   terminates, the emitted form terminates with the same outcome (Continue where the IR says Continue) and the same
+   state up to the flag.  Partial: the converse (termination of the emitted form implies termination of the IR
+   form) is not proved. *)
+Theorem c05_continue_forward_equiv_partial :
+  forall (state R : Type) (F : lens state bool) (n : nat) (sel : state -> result (option nat))
+         (cs : list (list (Structured.stmt state R) * bool)) (st : state) (o : Structured.outcome R) (s : state),
+  mono_c cs -> indep_c F cs -> indep_fn F sel ->
+  run_stmt n (Switch sel cs) st = Done (o, s) ->
+  evals_b (fwd_switch F sel cs) st (o, lset F (is_cont o) s).
+Proof. exact continue_forward_switch. Qed.
+Print Assumptions c05_continue_forward_equiv_partial.
+
+(* the same for a single-body switch written as do { } while(false): the IR meaning of such a switch is "the body,
+   Break ends it" (c05_single_body_switch_partial) *)
+Theorem c05_continue_forward_do_while_partial :
+  forall (state R : Type) (F : lens state bool) (n : nat) (body : list (Structured.stmt state R)) (st : state)
+         (o1 : Structured.outcome R) (s : state),
+  mono_b body -> indep_b F body ->
+  run_block n body st = Done (o1, s) ->
+  evals_b (fwd_once F body) st (unbreak_o o1, lset F (is_cont o1) s).
+Proof. exact continue_forward_once. Qed.
+Print Assumptions c05_continue_forward_do_while_partial.
+
+Theorem c05_single_body_switch_partial :
+  forall (state R : Type) (n : nat) (sel : state -> result (option nat))
+         (pre : list (list (Structured.stmt state R) * bool)) (body : list (Structured.stmt state R)) (ft : bool)
+         (st : state) (r : Structured.outcome R * state),
+  empty_labels pre ->
+  (forall i : option nat, sel st = Done i -> exists j : nat, i = Some j /\ (j <= List.length pre)%nat) ->
+  may_cont_b body = false ->
+  run_stmt n (Switch sel (pre ++ (body, ft) :: nil)%list) st = Done r ->
+  evals_s (DoOnce body) st r.
+Proof. exact single_body_once. Qed.
+Print Assumptions c05_single_body_switch_partial.
+
+Example c05_continue_forward_nonvacuous :
+  mono_c ex_cases /\ indep_c flagL ex_cases /\ indep_fn flagL ex_sel /\
+  run_stmt 10 (Switch ex_sel ex_cases) (mkx 1 0 false (0, 0)%Z) = Done (Structured.OContinue, mkx 1 0 false (0, 0)%Z) /\
+  run_block 12 (fwd_switch flagL ex_sel ex_cases) (mkx 1 0 false (0, 0)%Z) = Done (Structured.OContinue, mkx 1 0 true (0, 0)%Z).
+Proof. exact (conj ex_mono_cases (conj ex_indep_cases (conj ex_indep_sel (conj ex_switch_continue_run ex_fwd_switch_run)))). Qed.
+
+(* inserted `break;` after every non-fall-through case that does not end in a terminator: forward direction *)
+Theorem c05_switch_case_breaks_partial :
+  forall (state R : Type) (n : nat) (sel : state -> result (option nat))
+         (cs : list (list (Structured.stmt state R) * bool)) (st : state) (r : Structured.outcome R * state),
+  mono_c cs -> run_stmt n (Switch sel cs) st = Done r -> evals_s (Switch sel (enc_cases cs)) st r.
+Proof. exact case_breaks_forward. Qed.
+Print Assumptions c05_switch_case_breaks_partial.
+
+(* the control-flow rules of the GLSL interpreter (Glsl/Sem.v, tool glslrun) are the generic step combinators *)
+Theorem c05_glsl_while_true_is_generic_loop : forall P fu body st,
+  gconv (Naga.Glsl.Sem.exec_while P (S fu) (Naga.Glsl.Syntax.EBool true) body st) =
+  loop_step (fun s => gconv (Naga.Glsl.Sem.exec_scoped P fu body s)) (fun s => Done (Structured.ONormal, s)) None
+            (fun s => gconv (Naga.Glsl.Sem.exec_while P fu (Naga.Glsl.Syntax.EBool true) body s)) st.
+Proof. exact glsl_while_true_is_loop_step. Qed.
+Theorem c05_glsl_do_while_false_is_generic_do_once : forall P fu body st,
+  gconv (Naga.Glsl.Sem.exec_dowhile P (S fu) body (Naga.Glsl.Syntax.EBool false) st) =
+  doonce_step (fun s => gconv (Naga.Glsl.Sem.exec_scoped P fu body s)) st.
+Proof. exact glsl_dowhile_false_is_doonce_step. Qed.
+Theorem c05_glsl_switch_cases_are_generic_cases : forall P fu labels body rest st,
+  gconv (Naga.Glsl.Sem.exec_cases P (S fu) ((labels, body) :: rest) st) =
+  case_step (fun s => gconv (Naga.Glsl.Sem.exec_stmts P fu body s)) true (fun s => gconv (Naga.Glsl.Sem.exec_cases P fu rest s)) st.
+Proof. exact glsl_cases_is_case_step. Qed.
+Print Assumptions c05_glsl_while_true_is_generic_loop.
+
